@@ -363,6 +363,9 @@ class WritableStream(io.RawIOBase):
         self._toggle = 0
         self._exp_header = None
         self._done = False
+        # Set while the download cannot go on: it has not been initiated yet,
+        # or one of its requests has failed
+        self._failed = True
 
         if size is None or size < 1 or size > 4 or force_segment:
             # Initiate segmented download
@@ -383,6 +386,7 @@ class WritableStream(io.RawIOBase):
             command = REQUEST_DOWNLOAD | EXPEDITED | SIZE_SPECIFIED
             command |= (4 - size) << 2
             self._exp_header = SDO_STRUCT.pack(command, index, subindex)
+        self._failed = False
 
     def write(self, b):
         """
@@ -391,6 +395,14 @@ class WritableStream(io.RawIOBase):
         """
         if self._done:
             raise RuntimeError("All expected data has already been transmitted")
+        try:
+            return self._write(b)
+        except SdoError:
+            # The transfer is over, close() must not send anything for it
+            self._failed = True
+            raise
+
+    def _write(self, b):
         if self._exp_header is not None:
             # Expedited download
             if len(b) < self.size:
@@ -440,8 +452,10 @@ class WritableStream(io.RawIOBase):
         An empty segmented SDO message may be sent saying there is no more data.
         """
         super(WritableStream, self).close()
-        if not self._done and not self._exp_header:
+        if not self._done and not self._exp_header and not self._failed:
             # Segmented download not finished
+            # (this may run again when the stream is garbage collected)
+            self._failed = True
             command = REQUEST_SEGMENT_DOWNLOAD | NO_MORE_DATA
             command |= self._toggle
             # No data in this message
@@ -689,6 +703,9 @@ class BlockDownloadStream(io.RawIOBase):
         self._last_bytes_sent = 0
         self._current_block = []
         self._retransmitting = False
+        # Set while the download cannot go on: it has not been initiated yet,
+        # or one of its requests has failed
+        self._failed = True
         command = REQUEST_BLOCK_DOWNLOAD | INITIATE_BLOCK_TRANSFER
         if request_crc_support:
             command |= CRC_SUPPORTED
@@ -717,6 +734,7 @@ class BlockDownloadStream(io.RawIOBase):
         self._blksize, = struct.unpack_from("B", response, 4)
         logger.debug("Server requested a block size of %d", self._blksize)
         self.crc_supported = request_crc_support and bool(res_command & CRC_SUPPORTED)
+        self._failed = False
 
     def write(self, b):
         """
@@ -735,14 +753,19 @@ class BlockDownloadStream(io.RawIOBase):
         # Can send up to 7 bytes at a time. Take a copy since it is kept for
         # retransmission while the caller may reuse its buffer
         data = bytes(b[0:7])
-        if self.size is not None and self.pos + len(data) >= self.size:
-            # This is the last data to be transmitted based on expected size
-            self.send(data, end=True)
-        elif len(data) < 7:
-            # We can't send less than 7 bytes in the middle of a transmission
-            return None
-        else:
-            self.send(data)
+        try:
+            if self.size is not None and self.pos + len(data) >= self.size:
+                # This is the last data to be transmitted based on expected size
+                self.send(data, end=True)
+            elif len(data) < 7:
+                # We can't send less than 7 bytes in the middle of a transmission
+                return None
+            else:
+                self.send(data)
+        except SdoError:
+            # The transfer is over, close() must not send anything for it
+            self._failed = True
+            raise
         return len(data)
 
     def send(self, b, end=False):
@@ -837,6 +860,8 @@ class BlockDownloadStream(io.RawIOBase):
         if self.closed:
             return
         super(BlockDownloadStream, self).close()
+        if self._failed:
+            return
         if not self._done:
             logger.error("Block transfer was not finished")
         command = REQUEST_BLOCK_DOWNLOAD | END_BLOCK_TRANSFER
